@@ -165,42 +165,89 @@ def err_name(e):
     return 'err ' + type(e).__name__
 
 
-def impl_eflr(mods, payload, lr_type=5):
+def impl_eflr_obj(mods, payload, lr_type=5):
+    """(canonical text, EFLR object or None).  The text is produced only after the complete record has been parsed."""
     File, RepCode, LogicalFile, EFLR = mods
     try:
         e = EFLR.ExplicitlyFormattedLogicalRecord(lr_type, File.LogicalData(payload))
     except Exception as err:   # canonicalised by class
-        return err_name(err)
-    return 'ok ' + impl_table_txt(RepCode, e)
+        return err_name(err), None
+    return 'ok ' + impl_table_txt(RepCode, e), e
+
+
+def impl_eflr(mods, payload, lr_type=5):
+    return impl_eflr_obj(mods, payload, lr_type)[0]
+
+
+def _index_txt(RepCode, li):
+    """canonical form of an entered LogicalIndex; positions are reported as record ordinals"""
+    order = {}
+    for k in range(len(li._logical_record_index)):
+        order[li._logical_record_index.get_file_logical_data(k, 0, 0).position.lrsh_position] = k
+    parts = ['ok', str(len(li.logical_files))]
+    for lf in li.logical_files:
+        parts += ['F', str(len(lf.eflrs))]
+        for pe in lf.eflrs:
+            parts.append(f'{order[pe.lrsh_position.lrsh_position]} {pe.eflr.lr_type} {impl_table_txt(RepCode, pe.eflr)}')
+        parts += ['1' if lf.channel is not None else '0', '1' if lf.frame is not None else '0']
+        # file order of the attached IFLRs over all frame types
+        fl = []
+        for name, xa in lf.iflr_position_map.items():
+            for ref in xa._data:
+                fl.append((order[ref.logical_record_position.lrsh_position], name.O, name.C, hx(name.I), ref.frame_number))
+        fl.sort()
+        parts.append(str(len(fl)))
+        parts += [f'{p} {o} {c} {i} {f}' for p, o, c, i, f in fl]
+    return ' '.join(parts)
+
+
+HISTORIES = ('once', 'reenter', 'reenter3', 'two-objects', 'two-objects-nested')
+
+
+def impl_lfiles_hist(mods, recs, rng, hist='once', data=None):
+    """Index a wrapped file with the real LogicalIndex under an object-level history; returns one canonical text per
+    `__enter__` (every one of them must present the encoded content):
+    once: enter; reenter / reenter3: enter, leave, enter again (and again) on the SAME LogicalIndex over one BytesIO;
+    two-objects: two LogicalIndex objects over ONE file object used one after the other; two-objects-nested: the second
+    entered while the first is still open, the first re-read afterwards."""
+    from gen import c03phys
+    File, RepCode, LogicalFile, EFLR = mods
+    if data is None:
+        data = c03phys.wrap(recs, rng)
+    outs = []
+    fobj = io.BytesIO(data)
+
+    def entered(li):
+        try:
+            with li:
+                outs.append(_index_txt(RepCode, li))
+        except Exception as err:
+            outs.append(err_name(err))
+    if hist == 'once':
+        entered(LogicalFile.LogicalIndex(fobj))
+    elif hist in ('reenter', 'reenter3'):
+        li = LogicalFile.LogicalIndex(fobj)
+        for _ in range(2 if hist == 'reenter' else 3):
+            entered(li)
+    elif hist == 'two-objects':
+        a, b = LogicalFile.LogicalIndex(fobj), LogicalFile.LogicalIndex(fobj)
+        entered(a); entered(b); entered(a)
+    else:
+        a, b = LogicalFile.LogicalIndex(fobj), LogicalFile.LogicalIndex(fobj)
+        try:
+            with a:
+                first = _index_txt(RepCode, a)
+                with b:
+                    outs.append(_index_txt(RepCode, b))
+                    outs.append(_index_txt(RepCode, a))     # the first object, read while/after the second indexed
+                outs.append(first)
+        except Exception as err:
+            outs.append(err_name(err))
+    return outs
 
 
 def impl_lfiles(mods, recs, rng):
-    """Index a wrapped file with the real LogicalIndex; positions are reported as record ordinals."""
-    from gen import c03phys
-    File, RepCode, LogicalFile, EFLR = mods
-    data = c03phys.wrap(recs, rng)
-    try:
-        with LogicalFile.LogicalIndex(io.BytesIO(data)) as li:
-            order = {}
-            for k in range(len(li._logical_record_index)):
-                order[li._logical_record_index.get_file_logical_data(k, 0, 0).position.lrsh_position] = k
-            parts = ['ok', str(len(li.logical_files))]
-            for lf in li.logical_files:
-                parts += ['F', str(len(lf.eflrs))]
-                for pe in lf.eflrs:
-                    parts.append(f'{order[pe.lrsh_position.lrsh_position]} {pe.eflr.lr_type} {impl_table_txt(RepCode, pe.eflr)}')
-                parts += ['1' if lf.channel is not None else '0', '1' if lf.frame is not None else '0']
-                # file order of the attached IFLRs over all frame types
-                fl = []
-                for name, xa in lf.iflr_position_map.items():
-                    for ref in xa._data:
-                        fl.append((order[ref.logical_record_position.lrsh_position], name.O, name.C, hx(name.I), ref.frame_number))
-                fl.sort()
-                parts.append(str(len(fl)))
-                parts += [f'{p} {o} {c} {i} {f}' for p, o, c, i, f in fl]
-            return ' '.join(parts)
-    except Exception as err:
-        return err_name(err)
+    return impl_lfiles_hist(mods, recs, rng, 'once')[0]
 
 
 # ------------------------------------------------------------------ generators
@@ -314,6 +361,47 @@ def gen_table(rng, stype=None, max_cols=8, max_rows=6):
         rows.append({'name': name, 'cells': cells})
     t = {'stype': stype.hex(), 'sname': sname.hex(), 'cols': cols, 'rows': rows}
     return t, feats
+
+
+def gen_shared_default_table(rng):
+    """The aliasing shape: a column whose default value has n >= 2 elements; several objects inherit it unchanged, some
+    override ONLY the count (C without V) to m != n and so still present the complete default list; rows of both kinds
+    before and after each other."""
+    feats = {'shared-default'}
+    ncols = rng.randint(1, 3)
+    labels = rng.sample(IDENT_POOL[1:], ncols)
+    cols = []
+    for lab in labels:
+        rc = rng.choice([2, 7, 13, 15, 16, 17, 18, 19, 20, 23])
+        n = rng.randint(2, 4)
+        cols.append({'inv': False, 'attr': {'label': lab.hex(), 'count': n, 'rc': rc, 'units': rng.choice(UNITS_POOL).hex(),
+                                            'value': [gen_val(rng, rc) for _ in range(n)]}})
+    if rng.random() < 0.3:
+        cols.insert(rng.randint(0, len(cols)), {'inv': rng.random() < 0.5, 'attr': gen_attr(rng, b'EXTRA-' + bytes([65 + len(cols)]))})
+    rows, names = [], set()
+    for _ in range(rng.randint(3, 6)):
+        while True:
+            name = gen_obname(rng)
+            if tuple(name) not in names: break
+        names.add(tuple(name))
+        cells = []
+        for c in cols:
+            t = c['attr']
+            a = dict(t)
+            r = rng.random()
+            if c['inv'] or t['value'] is None or len(t['value']) < 2 or r < 0.45:
+                pass                                                   # inherits everything
+            elif r < 0.85:
+                a['count'] = rng.choice([0, 1, max(1, t['count'] - 1), t['count'] + 1, t['count'] + 2])
+                if a['count'] < t['count']: feats.add('count-only-override-smaller')
+                elif a['count'] > t['count']: feats.add('count-only-override-larger')
+                if rng.random() < 0.2: a['units'] = rng.choice(UNITS_POOL).hex()
+            else:
+                a['count'] = rng.randint(1, 3)
+                a['value'] = [gen_val(rng, a['rc']) for _ in range(a['count'])]
+            cells.append(a)
+        rows.append({'name': name, 'cells': cells})
+    return {'stype': rng.choice(IDENT_POOL[1:]).hex(), 'sname': b''.hex(), 'cols': cols, 'rows': rows}, feats
 
 
 def gen_flags(rng, p):
@@ -512,7 +600,7 @@ def run(ctx):
     N = ctx.n(12000, 100000)
     cases = []
     for _ in range(N):
-        t, feats = gen_table(rng)
+        t, feats = gen_shared_default_table(rng) if rng.random() < 0.15 else gen_table(rng)
         ch = gen_choices(rng, t)
         cases.append((t, ch, feats))
     wf = ctx.lean(['wf ' + table_txt(t, False) for t, _, _ in cases])
@@ -522,10 +610,19 @@ def run(ctx):
         ctx.corr('generator-wf', {'table': cases[bad_wf[0]][0]}, 'generator produced', 'a table outside Table.wf')
     payloads = [b'' if h == '-' else bytes.fromhex(h) for h in enc]
     dec = ctx.lean(['eflr ' + hx(p) for p in payloads])
+    prev = None          # (payload, object, text, table, choices) of the record parsed before this one
     for (t, ch, feats), p, m in zip(cases, payloads, dec):
-        out = impl_eflr(mods, p)
+        out, obj = impl_eflr_obj(mods, p)
         ctx.corr('eflr', {'op': 'eflr', 'payload': p.hex()}, out, m)
         ok = oracle_eflr(ctx, mods, t, ch, p, out)
+        # a record already presented must not change when another record is parsed afterwards
+        if prev is not None and prev[1] is not None:
+            ctx.count('oracle_cases')
+            again = 'ok ' + impl_table_txt(mods[1], prev[1])
+            if again != prev[2]:
+                ctx.fail({'op': 'eflr2', 'table': prev[3], 'choices': prev[4], 'payload': prev[0].hex(), 'then': p.hex()},
+                         f'a parsed table changed after another record was parsed: {again[:200]!r} was {prev[2][:200]!r}')
+        prev = (p, obj, out, t, ch)
         depths = omission_depth(t, ch)
         for d in depths:
             ctx.count(f'trailing_omission_depth_{min(d, 5)}{"+" if d >= 5 else ""}')
@@ -574,16 +671,22 @@ def run(ctx):
     replies = ctx.lean(reqs)
     recs_all = [parse_recs(r) for r in replies]
     model = ctx.lean(['lfiles ' + ' '.join([str(len(recs))] + [f"{'1' if e else '0'} {'1' if x else '0'} {ty} {hx(b)}" for e, x, ty, b in recs]) for recs in recs_all])
-    for files, recs, m in zip(fcases, recs_all, model):
-        out = impl_lfiles(mods, recs, rng)
-        ctx.corr('lfiles', {'op': 'lfiles', 'recs': [[e, x, ty, b.hex()] for e, x, ty, b in recs]}, out, m)
-        ctx.count('oracle_cases')
+    for ci, (files, recs, m) in enumerate(zip(fcases, recs_all, model)):
+        hist = HISTORIES[ci % len(HISTORIES)]
+        outs = impl_lfiles_hist(mods, recs, rng, hist)
+        out = outs[0]
         want = expected_files_txt(files, recs)
-        if out != want:
-            ctx.fail({'op': 'lfiles', 'recs': [[e, x, ty, b.hex()] for e, x, ty, b in recs], 'want': want},
-                     f'indexed logical files differ from the encoded ones: got {out[:300]!r} want {want[:300]!r}')
+        for j, o in enumerate(outs):
+            # every __enter__ of every object must present the encoded content (model: enterIndex prev prs = indexRecs prs)
+            ctx.corr('lfiles', {'op': 'lfiles', 'hist': hist, 'enter': j, 'recs': [[e, x, ty, b.hex()] for e, x, ty, b in recs]}, o, m)
+            ctx.count('oracle_cases')
+            if o != want:
+                ctx.fail({'op': 'lfiles', 'hist': hist, 'recs': [[e, x, ty, b.hex()] for e, x, ty, b in recs], 'want': want},
+                         f'history {hist}, enter #{j}: indexed logical files differ from the encoded ones: got {o[:300]!r} want {want[:300]!r}')
+                break
         else:
-            ctx.nontriv(('lf', len(files), len(recs), hash(want)))
+            ctx.nontriv(('lf', hist, len(files), len(recs), hash(want)))
+        ctx.count('history_' + hist)
         ctx.count('files_with_%d_logical_files' % len(files))
         ctx.count('encrypted_records', sum(1 for r in recs if r[0]))
         # encrypted records removed: the tables and frame references must not change (positions aside)
@@ -625,12 +728,20 @@ def replay(ctx, rec):
     n0 = len(ctx.failures)
     if case.get('op') == 'eflr':
         oracle_eflr(ctx, mods, case['table'], case['choices'], bytes.fromhex(case['payload']))
+    elif case.get('op') == 'eflr2':
+        out, obj = impl_eflr_obj(mods, bytes.fromhex(case['payload']))
+        impl_eflr_obj(mods, bytes.fromhex(case['then']))
+        again = 'ok ' + impl_table_txt(mods[1], obj) if obj is not None else out
+        if again != out:
+            return False, f'a parsed table changed after another record was parsed: {again[:200]!r} was {out[:200]!r}'
+        oracle_eflr(ctx, mods, case['table'], case['choices'], bytes.fromhex(case['payload']))
     elif case.get('op') == 'lfiles':
         recs = [(e, x, ty, bytes.fromhex(b)) for e, x, ty, b in case['recs']]
-        out = impl_lfiles(mods, recs, None)
-        if out != case['want']:
-            return False, f'indexed logical files differ: got {out[:300]!r} want {case["want"][:300]!r}'
-        return True, 'indexed content equals the encoded content'
+        hist = case.get('hist', 'once')
+        for j, out in enumerate(impl_lfiles_hist(mods, recs, None, hist)):
+            if out != case['want']:
+                return False, f'history {hist}, enter #{j}: indexed logical files differ: got {out[:300]!r} want {case["want"][:300]!r}'
+        return True, f'indexed content equals the encoded content after every enter (history {hist})'
     else:
         return True, 'nothing to replay (no concrete failing input was recorded)'
     if len(ctx.failures) > n0:
